@@ -17,7 +17,7 @@ from vlib import common as C
 PID = "C13"
 UNIT = "iter"
 
-PINNED = ['fuel_monotone', 'denotation_unique', 'list_cursor', 'range_cursor', 'string_cursor', 'generator_source', 'each_refines', 'keep_refines', 'enumerate_refines', 'skip_refines', 'take_refines', 'take_while_refines', 'step_refines', 'chain_refines', 'zip_refines_partial', 'intersperse_refines', 'chunks_refines_partial', 'windows_refines_partial', 'composition', 'composition_with_arguments', 'consumers_are_folds', 'consumer_loop_exact', 'to_list_is_the_sequence', 'find_stops_at_first_hit', 'reversed_list_is_rev', 'reversed_range_is_rev', 'reversed_twice', 'byte_cursor_bidirectional', 'list_cursor_bidirectional', 'reversed_of_bidirectional', 'bidirectional_is_forward', 'reversed_bytes_is_rev', 'pulls_are_a_prefix', 'pulls_prefix_of_source', 'pull_count_bounded', 'one_next_demand', 'pull_count_per_output', 'generator_free_steps_pull_nothing', 'construction_pulls_nothing']
+PINNED = ['fuel_monotone', 'denotation_unique', 'list_cursor', 'range_cursor', 'string_cursor', 'generator_source', 'each_refines', 'keep_refines', 'enumerate_refines', 'skip_refines', 'take_refines', 'take_while_refines', 'step_refines', 'chain_refines', 'zip_refines_partial', 'intersperse_refines', 'chunks_refines_partial', 'windows_refines_partial', 'composition', 'composition_with_arguments', 'consumers_are_folds', 'consumer_loop_exact', 'to_list_is_the_sequence', 'find_stops_at_first_hit', 'failing_generator_source', 'consume_propagates_error', 'error_pulled_iff_no_early_exit', 'reversed_list_is_rev', 'reversed_range_is_rev', 'reversed_twice', 'byte_cursor_bidirectional', 'list_cursor_bidirectional', 'reversed_of_bidirectional', 'bidirectional_is_forward', 'reversed_bytes_is_rev', 'pulls_are_a_prefix', 'pulls_prefix_of_source', 'pull_count_bounded', 'one_next_demand', 'pull_count_per_output', 'generator_free_steps_pull_nothing', 'construction_pulls_nothing']
 
 # ----------------------------------------------------------------------------------------------
 # values: python int / str (one char) / tuple / list / None / bool
@@ -115,6 +115,8 @@ def dec_event(z):
         return ["out", "E"]
     if tag == 14:
         return ["none", "n"]
+    if tag == 15:
+        return ["fail", v_canon(z[1])]
     raise ValueError(z)
 
 
@@ -147,8 +149,8 @@ def src_items(s):
         return list(s["v"])
     if k == "map":
         return [tuple(kv) for kv in s["v"]]
-    if k == "gen":
-        return src_items(s["of"])
+    if k in ("gen", "genf"):
+        return src_items(s["of"])      # genf: the elements it WOULD yield; it throws on reaching number s["at"]
     raise ValueError(k)
 
 
@@ -164,7 +166,11 @@ def src_type(s):
 
 
 def src_bidir(s):
-    return s["k"] != "gen"
+    return s["k"] not in ("gen", "genf")
+
+
+def src_fails(s):
+    return s["k"] == "genf" and s["at"] < len(src_items(s))
 
 
 def src_koto(s):
@@ -181,6 +187,8 @@ def src_koto(s):
         if not s["v"]:
             return "{}"
         return "{" + ", ".join(f"{a}: {b}" for a, b in s["v"]) + "}"
+    if k == "genf":
+        return f"genf({s['id']}, {src_koto(s['of'])}, {s['at']})"
     return f"gen({s['id']}, {src_koto(s['of'])})"
 
 
@@ -194,6 +202,8 @@ def src_coq(s):
         return "(SStr [" + "; ".join(str(ord(c)) for c in s["v"]) + "])"
     if k == "map":
         return "(mk_map [" + "; ".join(f"({v_coq(a)}, {v_coq(b)})" for a, b in s["v"]) + "])"
+    if k == "genf":
+        return f"(SFail {s['id']} [" + "; ".join(v_coq(x) for x in src_items(s)) + f"] {s['at']} false)"
     return f"(mk_gen {s['id']} [" + "; ".join(v_coq(x) for x in src_items(s)) + "])"
 
 
@@ -214,18 +224,24 @@ CALLBACKS = {
     "fls": (9, "p_false", "false", lambda x: False, None, bool),
     "bad": (10, "p_bad", "x", None, None, bool),
     "gt1": (14, "p_gt1", "x > 1", lambda x: x > 1, INT, bool),
+    # callbacks that throw on one particular element (python function None: no mathematical definition)
+    "thr": (15, "f_thr", "if x == 4\n    throw 'boom'\n  x", None, INT, INT),
+    "thrp": (16, "p_thr", "if x == 1\n    throw 'boom'\n  true", None, INT, bool),
 }
 FOLDS = {
     "add": (11, "g_add", "a + b", lambda a, b: a + b),
     "mix": (12, "g_mix", "a * 2 + b", lambda a, b: a * 2 + b),
 }
-MAPPERS = ["dbl", "inc", "dup", "sum2", "id"]
-PREDS = ["even", "lt3", "gt1", "tru", "fls", "bad"]
+MAPPERS = ["dbl", "inc", "dup", "sum2", "id", "thr"]
+PREDS = ["even", "lt3", "gt1", "tru", "fls", "bad", "thrp"]
 PARAMS = [0, 1, 2, 3, 5]
 
 
 def prelude():
     lines = ["gen = |id, xs|", "  for x in xs", "    emit 'pull', (id, x)", "    yield x", "  emit 'end', id"]
+    # a generator whose body throws on reaching its element number k
+    lines += ["genf = |id, xs, k|", "  i = 0", "  for x in xs", "    if i == k", "      emit 'fail', id", "      throw 'boom'",
+              "    emit 'pull', (id, x)", "    yield x", "    i += 1", "  emit 'end', id"]
     for name, (cid, _, body, *_r) in CALLBACKS.items():
         lines += [f"{name} = |x|", f"  emit 'cb', ({cid}, x)", f"  {body}"]
     for name, (cid, _, body, _f) in FOLDS.items():
@@ -411,13 +427,17 @@ def spec_stage(st, it):
 def has_error_potential(case):
     """pipelines on which the plain mathematical definition does not say what happens
     (runtime errors by design): compared with the model only"""
+    if src_fails(case["src"]):
+        return True
     for st in case["stages"]:
-        if st[0] in ("keep", "take_while") and st[1] == "bad":
+        if st[0] in ("each", "keep", "take_while") and CALLBACKS[st[1]][3] is None:
             return True
         if st[0] in ("step", "chunks", "windows") and st[1] == 0:
             return True
+        if st[0] in ("chainR", "chainL", "zipR", "zipL") and src_fails(st[1]):
+            return True
     c = case["consumer"]
-    if c[0] in ("any", "all", "find", "position") and c[1] == "bad":
+    if c[0] in ("any", "all", "find", "position") and CALLBACKS[c[1]][3] is None:
         return True
     return False
 
@@ -483,6 +503,10 @@ def spec_result(case):
         return v_canon(next((i for i, x in enumerate(it) if CALLBACKS[carg][3](x)), None))
     if cname == "fold":
         return v_canon(functools.reduce(FOLDS[carg[1]][3], it, carg[0]))
+    if cname == "for":
+        return v_canon(sum(1 for _ in it))
+    if cname == "unpack":
+        return "n"
     if cname == "nexts":
         return None     # the outputs are events; checked by spec_nexts
     raise ValueError(cname)
@@ -537,6 +561,14 @@ def consumer_koto(c):
         return f"it.{name}({arg})"
     if name == "fold":
         return f"it.fold({arg[0]}, {arg[1]})"
+    if name == "for":
+        if arg == "named":
+            return "n = 0\nfor x in it\n  emit 'out', x\n  n += 1\nn"
+        return "n = 0\nfor _ in it\n  emit 'none'\n  n += 1\nn"
+    if name == "unpack":
+        targets = ", ".join(f"v{i}" if m == "n" else "_" for i, m in enumerate(arg))
+        outs = "".join(f"emit 'out', v{i}\n" for i, m in enumerate(arg) if m == "n")
+        return f"it = it.iter()\n{targets} = it\n{outs}null"
     if name == "nexts":
         ds = ", ".join("0" if d == "f" else "1" for d in arg)
         if len(arg) == 1:
@@ -562,6 +594,10 @@ def consumer_coq(c):
         return f"(C{name.capitalize()} {CALLBACKS[arg][1]})"
     if name == "fold":
         return f"(CFold {v_coq(arg[0])} {FOLDS[arg[1]][1]})"
+    if name == "for":
+        return "(CFor false)" if arg == "named" else "(CFor true)"
+    if name == "unpack":
+        return "(CUnpack [" + "; ".join("true" if m == "n" else "false" for m in arg) + "])"
     if name == "nexts":
         return "(CNexts [" + "; ".join("Fwd" if d == "f" else "Bwd" for d in arg) + "])"
     raise ValueError(name)
@@ -629,12 +665,17 @@ def all_stages():
     return st
 
 
+# consumers executed by the VM's own iteration instructions (IterNext / IterNextQuiet / IterUnpack)
+SCRIPT_CONSUMERS = [["for", "named"], ["for", "quiet"], ["unpack", "n_"], ["unpack", "_n"], ["unpack", "n_n"], ["unpack", "__n"]]
+
+
 def all_consumers():
     cs = [[n, None] for n in ("to_list", "to_tuple", "count", "sum", "product", "min", "max", "min_max", "last", "consume")]
     for n in ("any", "all", "find", "position"):
         cs += [[n, p] for p in PREDS]
     cs += [["fold", [0, "add"]], ["fold", [1, "mix"]]]
     cs += [["nexts", "ffffff"], ["nexts", "fbfbfb"], ["nexts", "bbfbbf"]]
+    cs += SCRIPT_CONSUMERS
     return cs
 
 
@@ -669,7 +710,7 @@ def mk(origin, src, stages, consumer):
     # every tracing generator of a case gets its own id
     sts = []
     for i, st in enumerate(stages):
-        if st[0] in ("chainR", "chainL", "zipR", "zipL") and st[1]["k"] == "gen":
+        if st[0] in ("chainR", "chainL", "zipR", "zipL") and st[1]["k"] in ("gen", "genf"):
             o = dict(st[1])
             o["id"] = 2 + i
             st = [st[0], o]
@@ -714,8 +755,11 @@ def gen_cases(tier, seed):
     # depth 0: every source x every consumer
     for s in srcs:
         for c in consumers:
+            if tier == "quick" and c[0] in ("any", "all", "find", "position") and c[1] in ("lt3", "tru", "fls"):
+                continue
             if valid(s, [], c):
                 cases.append(mk("exh-d0", s, [], c))
+    rng1 = C.Rng(seed * 104729 + 7)
     # depth 1: every stage x every source x {to_list, nexts}; every stage x every consumer x 3 sources
     few = [srcs[19], srcs[15], {"k": "range", "s": 0, "e": 4, "incl": False}]   # gen len 3, list len 3, range
     for st in stages:
@@ -723,22 +767,55 @@ def gen_cases(tier, seed):
         for si, s in enumerate(srcs):
             for c in ((["to_list", None], ["nexts", "ffbfbf"], ["nexts", "bbf"]) if tier == "quick" else
                       (["to_list", None], ["nexts", "ffffff"], ["nexts", "fbbfbf"], ["nexts", "bbf"])):
-                if tier == "quick" and c[0] == "nexts" and si % 3 != (1 if c[1] == "ffbfbf" else 0):
+                if tier == "quick" and c[0] == "nexts" and si % 4 != (1 if c[1] == "ffbfbf" else 0):
+                    continue
+                if tier == "quick" and not rng1.chance(3, 4):
                     continue
                 if valid(s, e, c):
                     cases.append(mk("exh-d1", s, e, c))
         for s in (few[:1] if tier == "quick" else few):
             for c in consumers:
-                if tier == "quick" and c[0] in ("any", "all", "find", "position") and c[1] in ("lt3", "tru"):
+                if tier == "quick" and c[0] in ("any", "all", "find", "position") and c[1] in ("lt3", "tru", "fls"):
+                    continue
+                if tier == "quick" and c[0] == "unpack" and c[1] in ("n_", "n_n"):
+                    continue
+                if tier == "quick" and not rng1.chance(3, 4):
                     continue
                 if c[0] not in ("to_list",) and valid(s, e, c):
                     cases.append(mk("exh-d1-consumers", s, e, c))
+    # error-position axis: the source throws on reaching element k; every consumer must raise iff it pulls that far
+    base_f = {"k": "tuple", "v": VALS[:4]}
+    ats = (0, 2) if tier == "quick" else (0, 1, 2, 3, 4)
+    fsrcs = [{"k": "genf", "id": 1, "of": base_f, "at": k} for k in range(0, 5)]
+    fsrcs += [{"k": "genf", "id": 1, "of": {"k": "str", "v": "abc"}, "at": 1},
+              {"k": "genf", "id": 1, "of": {"k": "map", "v": [["w", 1], ["x", 2]]}, "at": 1}]
+    err_consumers = [["to_list", None], ["count", None], ["consume", None], ["last", None], ["sum", None], ["max", None],
+                     ["find", "gt1"], ["any", "even"], ["position", "tru"], ["fold", [0, "add"]], ["nexts", "fff"]] + SCRIPT_CONSUMERS
+    for s in fsrcs:
+        for c in consumers:
+            if valid(s, [], c):
+                cases.append(mk("err-d0", s, [], c))
+    for st in stages:
+        e = expand([st])
+        for k in ats:
+            s = fsrcs[k]
+            for c in ([x for x in err_consumers if x[0] not in ("max", "position", "fold") and x[1] != "n_n"]
+                      if tier == "quick" else consumers):
+                if valid(s, e, c):
+                    cases.append(mk("err-d1", s, e, c))
+        # the failing generator as the second argument of chain / zip
+    for k in ats:
+        o = {"k": "genf", "id": 2, "of": {"k": "tuple", "v": [7, 8, 9]}, "at": min(k, 2)}
+        for nm in ("chainR", "chainL", "zipR", "zipL"):
+            for c in err_consumers:
+                if valid(srcs[19], [[nm, o]], c):
+                    cases.append(mk("err-d1", srcs[19], [[nm, o]], c))
     # depth 2: every pair of stages x 2 sources x {to_list, nexts}
     two = [srcs[24]] if tier == "quick" else [srcs[24], srcs[16], srcs[19], srcs[10], srcs[17], srcs[18]]
     rng2 = C.Rng(seed * 7919 + 13)
     for a in stages:
         for b in stages:
-            if tier == "quick" and not rng2.chance(2, 5):
+            if tier == "quick" and not rng2.chance(3, 10):
                 continue      # quick: a seeded 40% sample of the ordered pairs; thorough: all of them
             e = expand([a, b])
             for s in two:
@@ -753,7 +830,7 @@ def gen_cases(tier, seed):
     for a in stages:
         for b in keepers:
             for (x, y) in ((a, b), (b, a)):
-                if tier == "quick" and not rng2.chance(1, 2):
+                if tier == "quick" and not rng2.chance(2, 5):
                     continue
                 e = expand([x, y])
                 if reversible(bsrc, e) is None:
@@ -763,7 +840,7 @@ def gen_cases(tier, seed):
                         cases.append(mk("exh-d2-bidir", bsrc, e, c))
     # random deeper pipelines
     rng = C.Rng(seed)
-    n_rand = 1000 if tier == "quick" else 120000
+    n_rand = 700 if tier == "quick" else 120000
     tries = 0
     made = 0
     while made < n_rand and tries < n_rand * 30:
@@ -791,7 +868,7 @@ def d_predicates(case, r):
     traced = {}
 
     def walk_src(s):
-        if s["k"] == "gen":
+        if s["k"] in ("gen", "genf"):
             traced[s["id"]] = src_items(s)
 
     walk_src(case["src"])
@@ -826,12 +903,36 @@ def d_predicates(case, r):
                     fails.append(f"S1 result {got}, expected a runtime error (reversing a non-bidirectional iterator)")
             elif got != want:
                 fails.append(f"S1 result {got} differs from the mathematical definition {want}")
+        if case["consumer"][0] in ("for", "unpack") and not has_error_potential(case) and reversible(case["src"], case["stages"]) is not None:
+            seq = iter(src_items(case["src"]))
+            for st in case["stages"]:
+                seq = spec_stage(st, seq)
+            cn, ca = case["consumer"]
+            if cn == "for":
+                wantn = [["out", v_canon(x)] if ca == "named" else ["none", "n"] for x in seq]
+            else:
+                got_items = list(itertools.islice(seq, len(ca)))
+                got_items += [None] * (len(ca) - len(got_items))
+                wantn = [["out", v_canon(x)] for x, m in zip(got_items, ca) if m == "n"]
+            gotn = [e for e in ev if e[0] in ("out", "none")]
+            if gotn != wantn:
+                fails.append(f"S2 the values seen by `{cn} {ca}` {gotn} differ from the mathematical definition {wantn}")
         if case["consumer"][0] == "nexts":
             wantn = spec_nexts(case)
             if wantn is not None:
                 gotn = [e for e in ev if e[0] in ("out", "none")]
                 if gotn != wantn:
                     fails.append(f"S2 next/next_back outputs {gotn} differ from the mathematical definition {wantn}")
+    # E: an error raised inside the iterator (generator body / callback threw) must surface in the consumer, and a
+    # thrown 'boom' must have such an origin.  Adaptors that discard pulled outputs by design (skip, step: std
+    # nth / ignored pulls) or look one element ahead (intersperse) are left to the model comparison.
+    threw = any(e[0] == "fail" or (e[0] == "cb" and e[1] in ("T(i15,i4)", "T(i16,i1)")) for e in ev)
+    lookahead = any(st[0] in ("skip", "step", "intersperse", "intersperse_with") for st in case["stages"])
+    if threw and not lookahead and not r["result"].startswith("E"):
+        fails.append(f"E1 an error was thrown inside the iterator while `{case['consumer'][0]} {case['consumer'][1]}` was "
+                     f"pulling it, but the consumer finished normally with {r['result']} (error dropped)")
+    if r["result"].startswith("EThrown") and not threw:
+        fails.append(f"E2 result {r['result']} but nothing threw")
     return fails
 
 
